@@ -3,7 +3,7 @@
    changes, these proofs are re-checked against the new text. *)
 From Coq Require Import ZifyBool ZifyNat.
 From EsVerif.Common Require Import Base.
-From EsVerif.C20 Require Import Model Model2 Spec Proofs Proofs2 Gen.
+From EsVerif.C20 Require Import Model Model2 Spec Proofs Proofs2 Meter Gen.
 Ltac Zify.zify_post_hook ::= Z.to_euclidean_division_equations.
 
 (* ------------------------------------------------------------------ isplit *)
@@ -175,3 +175,15 @@ Proof. intros. rewrite tie_splitarray. apply splitarray_spec; assumption. Qed.
 Theorem src_pbar_spec : forall c items, pbar_defined c items ->
   pbar_ok items (run_skel (if gen_dispatch_simple (simple c) then gen_sbar_skel else gen_full_skel) c items).
 Proof. intros. rewrite tie_pbar. apply pbar_spec; assumption. Qed.
+
+(* ------------------------------------------------- proof-deepening round: meter divisions, StatusPrinter padding *)
+Theorem tie_meter_divisions : gen_meter_divisions = meter_divisions.
+Proof. reflexivity. Qed.
+
+Theorem tie_status_pad : forall last len, gen_status_pad last len = status_pad last len.
+Proof. intros. reflexivity. Qed.
+
+(* no division of format_meter's bar branch, as read from the source, raises unless n = 0 and elapsed > 0 *)
+Theorem src_meter_safe : forall n total el, (n = 0 -> el <> SPos) ->
+  match meter_total n total with Some t => divisions_raise gen_meter_divisions n t el | None => false end = false.
+Proof. intros n total el H. rewrite tie_meter_divisions. exact (meter_safe n total el H). Qed.
